@@ -223,6 +223,19 @@ fn crafted_programs() -> Vec<Prog> {
     {
         v.push(Prog { origin: format!("crafted-panic-cache-gates-reused-{n}"), src: src.to_string(), consts: vec![] });
     }
+    // several variables assigned inside one operand / arm / condition: the merges of the environment
+    // must not be emitted in the hash order of a change set
+    for (n, src) in [
+        "pub fn main(a: bool, b: u8, c: u8) -> (bool, u8, u8, u8) {\n    let mut x = b;\n    let mut y = c;\n    let mut z = 1u8;\n    let r = a && ({ x = x + c; y = y ^ b; z = z + 1u8; x > y });\n    (r, x, y, z)\n}\n",
+        "pub fn main(a: bool, b: u8, c: u8) -> (bool, u8, u8, u8, u8) {\n    let mut x = b;\n    let mut y = c;\n    let mut z = 1u8;\n    let mut w = 2u8;\n    let r = a || ({ w = w ^ b; x = x ^ c; z = z ^ x; y = y + 1u8; x == y });\n    (r, x, y, z, w)\n}\n",
+        "pub fn main(a: u8, b: u8, c: u8) -> (u8, u8, u8, u8) {\n    let mut x = b;\n    let mut y = c;\n    let mut z = 1u8;\n    let r = match a { 0u8 => { x = x + 1u8; y = y + 2u8; z = z + 3u8; x }, 1u8..=9u8 => { z = z ^ a; y = y ^ a; x = x ^ a; y }, _ => { y = 0u8; x = 0u8; z }, };\n    (r, x, y, z)\n}\n",
+        "pub fn main(a: bool, b: u8, c: u8) -> (u8, u8, u8) {\n    let mut x = b;\n    let mut y = c;\n    let mut z = 1u8;\n    if ({ x = x ^ 1u8; y = y ^ 2u8; z = z ^ 3u8; a }) { x = y; y = z; } else { z = x; }\n    (x, y, z)\n}\n",
+    ]
+    .iter()
+    .enumerate()
+    {
+        v.push(Prog { origin: format!("crafted-several-assignments-in-one-operand-{n}"), src: src.to_string(), consts: vec![] });
+    }
     // programs that must be refused whatever the order in which the checker visits the functions
     for (n, src) in [
         "pub fn offset() -> u8 { 3u8 }\npub fn main(x: u8) -> u8 { x + offset() }\n",
